@@ -11,29 +11,51 @@
       forall fb k cand, In k (keys_of fb) -> decode_key fb k = Some cand ->
         accepts fb cand = true -> valid_b (code_sem fb) (tseq_of_run fb cand) = true
 
-    What is proved is the statement for the fragment [Frag.frag0] (boolean
-    predicate on the flat record): one crossing of non-derived factors with
-    unit weights and crossing weight 1, every other factor a non-derived
-    independent factor, no constraint that needs rejection, no exclusion, any
-    number of trials (full rounds plus a leftover round) - hence [_partial].
-    Missing: weighted levels / crossing weights (the unranker is then
-    [compute_jth_prefix_of_permutations_with_copies], whose refinement theorems
-    of C13 are relative to fuel), crossed within-trial derived factors with
-    uncrossed sources, and every design that needs the rejection test, for
-    which soundness additionally needs [Check/Mismatch] <-> [Sem] (C17).  Outside
-    the fragment the property is decided per run by the search of
-    harness/props/c05.py and the C04 harness (exhausted RandomGen vs. oracle). *)
+    What is proved is the statement for the fragment [Frag.frag1] (boolean
+    predicate on the flat record; it contains the earlier fragment [Frag.frag0],
+    [Frag0Thms.frag0_frag1]):
+      - one crossing of non-derived factors with unit level weights and crossing
+        weight 1, no preamble, sustain 1; every other factor a non-derived free
+        factor; every factor in [act_design];
+      - [Exclude] of levels of these factors: excluded combinations are filtered
+        out of the crossing ([fl_sizes] = number of remaining combinations > 0),
+        excluded levels out of the free factors' level lists (one level at least
+        remains); [fl_exclude] lists exactly the [Exclude] constraints;
+      - the user constraints RandomGen enforces by REJECTION: AtMostKInARow,
+        AtLeastKInARow, ExactlyK, ExactlyKInARow, Pin (sustain 1), Sequential, on
+        levels of the design's factors, with a window geometry the layout model
+        understands; soundness is: accepted => every [potential_sample_conforms]
+        holds => the constraint clauses of the reference semantics hold
+        (Random/Frag1Cons.v, with the C17 lemmas of Check/MismatchProofs.v);
+      - any number of trials >= 1 (full rounds plus a leftover round).
+    Hence [_partial].  Missing: weighted levels / crossing weights (the unranker
+    is then [compute_jth_prefix_of_permutations_with_copies]), crossed
+    within-trial derived factors with uncrossed sources, LatinSquare, preambles /
+    complex windows / several crossings (where the crossing itself is checked by
+    rejection).  Outside the fragment the property is decided per run by the
+    search of harness/props/c05.py and the C04 harness (exhausted RandomGen vs.
+    oracle). *)
 From Coq Require Import List.
-From SP Require Import Design.Flat Design.Sem Random.Enum Random.Frag Random.FragSem Random.Frag0Thms
-  Random.Frag0Example.
+From SP Require Import Design.Flat Design.Sem Random.Enum Random.Frag Random.FragSem Random.Frag1Thms
+  Random.Frag0Thms Random.Frag0Example.
 
-Theorem C04_accept_sound_partial : forall (fb : flat), frag0 fb = true ->
+Theorem C04_accept_sound_partial : forall (fb : flat), frag1 fb = true ->
   forall (k : key) (cand : candidate),
   In k (keys_of fb) -> decode_key fb k = Some cand -> accepts fb cand = true ->
   valid_b (code_sem fb) (tseq_of_run fb cand) = true.
-Proof. exact f0_accept_sound. Qed.
+Proof. exact f1_accept_sound. Qed.
 Print Assumptions C04_accept_sound_partial.
 
-(** the hypotheses are satisfiable by a non-trivial design: 108 keys, two rounds *)
+(** the fragment contains the earlier one *)
+Theorem C04_frag0_in_frag1 : forall (fb : flat), frag0 fb = true -> frag1 fb = true.
+Proof. exact frag0_frag1. Qed.
+Print Assumptions C04_frag0_in_frag1.
+
+(** the hypotheses are satisfiable by non-trivial designs: 108 keys, two rounds;
+    and, outside frag0, exclusions + AtMostKInARow + Pin: 32 keys of which 12 are accepted *)
 Example C04_example : frag0 ex_flat = true /\ length (keys_of ex_flat) = 108 /\ check_sound ex_flat = true.
 Proof. split; [exact ex_frag0 | split; [exact ex_keys | apply ex_checks]]. Qed.
+Example C04_example_rejection :
+  frag1 ex1_flat = true /\ frag0 ex1_flat = false /\ length (keys_of ex1_flat) = 32 /\
+  length (accepted_keys ex1_flat) = 12 /\ check_sound ex1_flat = true.
+Proof. split; [apply ex1_frag|]. split; [apply ex1_frag|]. split; [apply ex1_keys|]. split; [apply ex1_keys | apply ex1_checks]. Qed.
